@@ -59,13 +59,17 @@ impl Parse for v1::DecisionVariable {
     type Context = ();
     fn parse(self, _: &Self::Context) -> Result<Self::Output, ParseError> {
         let message = "ommx.v1.DecisionVariable";
+        let kind = self.kind().parse_as(&(), message, "kind")?;
+        // If the bound is not specified, the decision variable is unbounded ([0, 1] for binary)
+        let bound = match self.bound {
+            Some(bound) => bound.parse_as(&(), message, "bound")?,
+            None if kind == Kind::Binary => Bound::new(0.0, 1.0).unwrap(),
+            None => Bound::default(),
+        };
         Ok(DecisionVariable {
             id: VariableID(self.id),
-            kind: self.kind().parse_as(&(), message, "kind")?,
-            bound: self
-                .bound
-                .unwrap_or_default()
-                .parse_as(&(), message, "bound")?,
+            kind,
+            bound,
             substituted_value: self.substituted_value,
             name: self.name,
             subscripts: self.subscripts,
